@@ -19,8 +19,10 @@ RULE = (
     "distinct = descriptor digest."
 )
 ASSUMPTIONS = [
-    "fwd vs rev: 1e-8 of each block scale (measured 1e-13); vs numerical: rtol 1e-5 tube/aero, 2e-3 when the chain contains "
-    "fd-declared partials (wingbox: WingboxGeometry reports forward differences of an arccos near its square-root singularity), plus 20x the Richardson estimate and 1e-10*|f|; inconclusive when the estimate is poor",
+    "fwd vs rev: 1e-8 of each block scale (measured 1e-13); vs numerical: rtol 1e-5 plus 20x the Richardson estimate and "
+    "1e-10*|f|; inconclusive when the estimate is poor.  Exception (recorded finding KF-C02-wingbox-fd): geometry variables "
+    "of a wingbox surface act through WingboxGeometry's fd-declared partials; those directions are a probe class: deviations "
+    "up to 5e-2 emit the finding's key, larger ones are violations",
     "alternative linear solvers run with err_on_non_converge; a non-converged solve is inconclusive for that solver "
     "(documentation: iterative solvers are not guaranteed to converge); agreement 1e-5 of each block (the error of an "
     "iterative solve is its residual tolerance times the conditioning of the coupled Jacobian; measured up to 3e-6)",
@@ -209,8 +211,9 @@ def verdict(desc):
         out.close("fwd_vs_rev/d_%s" % k[0].split(".")[-1], Jr[k], Jf[k], rtol=1e-8, atol=1e-10 * max(fm[k[0]], 1e-9) / xm[k[1]],
                   scale=sc, msg="wrt %s" % k[1])
     # (2) numerical differentiation of the converged analysis
-    fd_chain = desc.get("model") == "wingbox"
-    rtol = 2e-3 if fd_chain else 1e-5
+    wingbox = desc.get("model") == "wingbox"
+    GEOM = ("twist_cp", "chord_cp", "xshear_cp", "yshear_cp", "zshear_cp", "sweep", "taper", "dihedral", "span")
+    rtol = 1e-5
     x0 = {w: np.array(pf.get_val(w), float).copy() for w in wrt}
     sizes = {o: int(np.size(pf.get_val(o))) for o in of}
 
@@ -240,12 +243,29 @@ def verdict(desc):
         for o in of:
             sl = slice(off, off + sizes[o])
             off += sizes[o]
+            # wingbox surfaces: a geometry variable of the WING reaches the functions through WingboxGeometry, whose partials
+            # the code itself declares as forward finite differences (recorded finding KF-C02-wingbox-fd): judged in a
+            # separate outcome; a deviation <= 5e-2 of the block emits the finding's key, anything larger is a violation
+            fd_chain = wingbox and any(w.split(".")[-1] in GEOM and not w.startswith("tail.") for w in dirs)
             for tag, J in (("fwd", Jf), ("rev", Jr)):
                 jd = np.zeros(sizes[o])
                 for w, d in dirs.items():
                     jd = jd + np.asarray(J[o, w]).reshape(sizes[o], -1) @ np.ravel(d)
-                numdiff.judge(out, "numerical_%s/d_%s/%s" % (tag, o.split(".")[-1], label), jd, D[sl], err[sl], rtol,
-                              atol=(1e-6 if fd_chain else 0.0) * fm[o], msg="[%s wrt %s]" % (o, label), fmag=fm[o])
+                key = "numerical_%s/d_%s/%s" % (tag, o.split(".")[-1], label)
+                if not fd_chain:
+                    numdiff.judge(out, key, jd, D[sl], err[sl], rtol, msg="[%s wrt %s]" % (o, label), fmag=fm[o])
+                    continue
+                o2 = Outcome()
+                numdiff.judge(o2, key, jd, D[sl], err[sl], rtol, atol=1e-6 * fm[o], msg="[%s wrt %s]" % (o, label), fmag=fm[o])
+                out.label("wingbox-fd-chain")
+                if o2.fails:
+                    o3 = Outcome()
+                    numdiff.judge(o3, key, jd, D[sl], err[sl], 5e-2, atol=1e-5 * fm[o], msg="[%s wrt %s]" % (o, label), fmag=fm[o])
+                    if o3.fails:
+                        out.fails.extend(o3.fails)
+                    else:
+                        out.fail("KF-C02-wingbox-fd:totals_through_fd_declared_partials", o2.fails[0]["msg"])
+                out.inconclusive.extend(o2.inconclusive)
     for w in wrt:
         pf.set_val(w, x0[w])
     # (3) alternative linear solvers on the coupled group
